@@ -113,18 +113,20 @@ type c9valuer struct{ n int }
 func (v c9valuer) LogValue() slog.Value { return slog.GroupValue(slog.Int("n", v.n)) }
 
 type c09world struct {
-	lvl      zap.AtomicLevel
-	loggers  []*zap.Logger
-	sugars   []*zap.SugaredLogger
-	logs     *observer.ObservedLogs
-	handler  slog.Handler
-	handler3 slog.Handler // three pending groups: derivations from it share whatever backing storage the handler keeps
-	bws      *zapcore.BufferedWriteSyncer
-	restore  func()      // the restore function of a ReplaceGlobals made during set-up
-	common   []zap.Field // a field slice shared (read-only) by all tasks
-	locked   zapcore.WriteSyncer
-	combined zapcore.WriteSyncer
-	runTag   string
+	encStyle  int  // 0: the default test encoder
+	oddLevels bool // some entries at levels outside Debug..Fatal
+	lvl       zap.AtomicLevel
+	loggers   []*zap.Logger
+	sugars    []*zap.SugaredLogger
+	logs      *observer.ObservedLogs
+	handler   slog.Handler
+	handler3  slog.Handler // three pending groups: derivations from it share whatever backing storage the handler keeps
+	bws       *zapcore.BufferedWriteSyncer
+	restore   func()      // the restore function of a ReplaceGlobals made during set-up
+	common    []zap.Field // a field slice shared (read-only) by all tasks
+	locked    zapcore.WriteSyncer
+	combined  zapcore.WriteSyncer
+	runTag    string
 }
 
 const c09kinds = 16
@@ -140,6 +142,17 @@ func runC09(c *Ctx) {
 	simsync.SetPolicy(pick(g, simsync.PoolFresh, simsync.PoolFresh, simsync.PoolLIFO, simsync.PoolRandom), uint64(g.Draw(1<<16))+1, 0)
 	w := &c09world{}
 	w.lvl = zap.NewAtomicLevelAt(stdLevels[g.Draw(3)])
+	// one run in three: the encoders render levels, times, durations and callers
+	// with another member of each encoder family, and some entries carry levels
+	// outside the named range (a "trace" level below Debug, one above Fatal)
+	if g.Chance(3) {
+		w.encStyle = 1 + g.Draw(1<<16)
+		w.oddLevels = true
+		if g.Chance(2) {
+			w.lvl.SetLevel(zapcore.Level(-3))
+		}
+		c.R.Probe("encoder family members other than the default, levels outside the named range")
+	}
 	clk := zsim.NewSimClock(r, drawEpoch(g))
 	table := map[string]func(u *url.URL) (zap.Sink, error){}
 	useSimScheme(table)
@@ -153,7 +166,7 @@ func runC09(c *Ctx) {
 			sk.failEvery = 2 + c.F.Draw(3)
 			c.Fault("flaky-device")
 		}
-		return zapcore.NewCore(newEncoder(console), zapcore.Lock(sk), w.lvl)
+		return zapcore.NewCore(w.encoder(console), zapcore.Lock(sk), w.lvl)
 	}
 	guardDoublePut = c
 	defer func() { guardDoublePut = nil }()
@@ -355,6 +368,9 @@ func c09exec(c *Ctx, w *c09world, t, i int, op c09op) {
 	l := w.loggers[op.a%len(w.loggers)]
 	s := w.sugars[op.a%len(w.sugars)]
 	lv := stdLevels[op.b%4]
+	if w.oddLevels && op.kind <= 2 && (op.b+op.c)%3 == 0 {
+		lv = []zapcore.Level{-3, -2, 7, 9, -2, 12}[(op.b+op.c)/3%6]
+	}
 	switch op.kind {
 	case 0:
 		if op.c%4 == 0 {
@@ -590,4 +606,25 @@ func (c09readHook) OnWrite(ce *zapcore.CheckedEntry, fs []zapcore.Field) {
 	if len(ce.Message)+len(ce.LoggerName)+len(fs) < 0 || ce.Level > zapcore.FatalLevel+1 {
 		sinkhole = 1
 	}
+}
+
+// encoder: the default test encoder, or (encStyle != 0) one whose level,
+// time, duration, caller and name encoders are other members of their families.
+func (w *c09world) encoder(console bool) zapcore.Encoder {
+	if w.encStyle == 0 {
+		return newEncoder(console)
+	}
+	st := w.encStyle
+	cfg := encCfg()
+	cfg.EncodeLevel = []zapcore.LevelEncoder{zapcore.CapitalColorLevelEncoder, zapcore.LowercaseColorLevelEncoder, zapcore.CapitalLevelEncoder, zapcore.CapitalColorLevelEncoder}[st%4]
+	cfg.EncodeDuration = []zapcore.DurationEncoder{zapcore.SecondsDurationEncoder, zapcore.NanosDurationEncoder, zapcore.MillisDurationEncoder, zapcore.StringDurationEncoder}[st/4%4]
+	cfg.TimeKey = "ts"
+	cfg.EncodeTime = []zapcore.TimeEncoder{zapcore.EpochTimeEncoder, zapcore.EpochMillisTimeEncoder, zapcore.EpochNanosTimeEncoder, zapcore.ISO8601TimeEncoder, zapcore.RFC3339TimeEncoder, zapcore.RFC3339NanoTimeEncoder, zapcore.TimeEncoderOfLayout("15:04:05.000")}[st/16%7]
+	cfg.CallerKey = "caller"
+	cfg.EncodeCaller = []zapcore.CallerEncoder{zapcore.ShortCallerEncoder, zapcore.FullCallerEncoder}[st/128%2]
+	cfg.EncodeName = zapcore.FullNameEncoder
+	if console {
+		return zapcore.NewConsoleEncoder(cfg)
+	}
+	return zapcore.NewJSONEncoder(cfg)
 }
